@@ -1,5 +1,5 @@
 #!/bin/bash
-# tools/all_seeds.sh [repo]: for every saved seeded change, apply it to <repo> (default /repo; must be clean), run the quick check of the property it
+# tools/all_seeds.sh [repo] [shard nshards]: for every saved seeded change, apply it to <repo> (default /repo; must be clean), run the quick check of the property it
 # breaks, undo it; prints one line per seed.  Evidence written meanwhile is restored.  Meant for `vp run --with-repo -- bash -c 'VERIF_REPO=$VP_RUN_REPO tools/all_seeds.sh $VP_RUN_REPO'`.
 cd "$(dirname "$0")/.."
 R=${1:-/repo}
@@ -8,8 +8,10 @@ if ! git -C "$R" diff --quiet; then echo "$R has local changes, refusing"; exit 
 bk=$(mktemp -d /tmp/pgaverif_evid.XXXXXX); cp -a evidence/. "$bk"/ 2>/dev/null
 trap 'git -C "$R" checkout -- . ; rm -rf evidence; mkdir -p evidence; cp -a "$bk"/. evidence/; rm -rf "$bk"; rm -f replays/*.json; python3 harness/gen_tables.py' EXIT
 missed=0
+SH=${2:-0}; NSH=${3:-1}; k=0     # optional sharding: several `vp run --with-repo` snapshots in parallel, each taking every NSH-th seed
 for d in seeded/*/; do
   n=$(basename "$d")
+  k=$((k+1)); [ $((k % NSH)) -eq "$SH" ] || continue
   p=$(python3 -c "import json;m=json.load(open('$d/meta.json'));print(m.get('run_check', m['breaks_property']))")
   git -C "$R" apply "$(pwd)/$d/patch.diff" || { echo "$n: patch does not apply"; continue; }
   ./check "$p" quick > /tmp/all_seeds.$$.log 2>&1; rc=$?
